@@ -80,6 +80,7 @@ def _cases(tier, seed):
         add(T.datasets_exhaustive([(2, 2, 2, 2)], 3), 3, 4)
         for rows, _ in T.datasets_seeded(rng, 20000):
             add([rows], "raw", 2)
+    out += T.integer_score_cases(rng, 150 if tier == "quick" else 1500, 2, len(T.CONFIGS))
     return out
 
 
@@ -105,7 +106,7 @@ def _check(case):
     X, y, sf, gl, yl, sl = T.materialise(rows, enc)
     fp = fingerprint(case)
     replay = {"groups": gl, "labels": yl, "scores": sl, "constraints": constraint, "objective": cfg[1], "flip": cfg[2], "grid_size": cfg[3],
-              "predict_method": enc[0], "container": enc[2], "prefit": enc[3] % 2 == 0, "extra_X_column": enc[4]}
+              "predict_method": enc[0], "container": enc[2], "prefit": enc[3] % 2 == 0, "extra_X_column": enc[4], "score_dtype": enc[5] if len(enc) > 5 else "float64"}
     desc = f"constraints={constraint} objective={cfg[1]} flip={cfg[2]} grid_size={cfg[3]} groups={gl} labels={yl} scores={sl}"
     try:
         to = T.make_optimizer(cfg, enc).fit(X, y, sensitive_features=sf)
